@@ -303,6 +303,138 @@ Section Nest.
   Qed.
 End Nest.
 
+(* ------------------------------------------------------------------ root arguments keep their defaults *)
+Lemma aget_In' (d : alist) k v : aget d k = Some v -> In (k, v) d.
+Proof.
+  induction d as [|[k0 v0] d IH]; cbn; [discriminate|]. destruct (str_eqb k k0) eqn:E.
+  - apply str_eqb_eq in E. subst. intros H. injection H as <-. left. reflexivity.
+  - intros H. right. apply IH. exact H.
+Qed.
+Lemma In_aget' (d : alist) k v : In (k, v) d -> exists v0, aget d k = Some v0.
+Proof.
+  induction d as [|[k0 v0] d IH]; cbn; [intros []|]. intros [H|H].
+  - injection H as -> ->. rewrite str_eqb_refl. eauto.
+  - destruct (str_eqb k k0); [eauto|]. apply IH. exact H.
+Qed.
+Lemma in_pdefaults (P : pipeline) c v :
+  In (c, v) (pdefaults P) <->
+  exists f, In f P /\ In (c, v) (dflt f) /\ ahas (bound f) c = false /\ is_output P c = false.
+Proof.
+  unfold pdefaults. rewrite in_flat_map. split.
+  - intros (f & Hf & H). apply filter_In in H as [H1 H2]. cbn [fst] in H2. apply andb_true_iff in H2 as [A B].
+    apply negb_true_iff in A, B. eauto 6.
+  - intros (f & Hf & H1 & A & B). exists f. split; [exact Hf|]. apply filter_In. split; [exact H1|].
+    cbn [fst]. rewrite A, B. reflexivity.
+Qed.
+
+Lemma aget_all_vals (l : alist) c v : (forall v', In (c, v') l -> v' = v) -> (exists v', In (c, v') l) ->
+  aget l c = Some v.
+Proof.
+  intros Hall [v' Hin]. destruct (aget l c) as [w|] eqn:E.
+  - apply aget_In' in E. rewrite (Hall w E). reflexivity.
+  - destruct (In_aget' l c v' Hin) as [w Hw]. congruence.
+Qed.
+Lemma aget_no_entry (l : alist) c : (forall v', ~ In (c, v') l) -> aget l c = None.
+Proof. intros H. destruct (aget l c) as [w|] eqn:E; [|reflexivity]. apply aget_In' in E. exfalso. eapply H; eauto. Qed.
+
+Lemma consistent_all_vals (P : pipeline) c v v' : consistent_defaults P = true ->
+  In (c, v) (pdefaults P) -> In (c, v') (pdefaults P) -> v' = v.
+Proof.
+  unfold consistent_defaults. intros H H1 H2. rewrite forallb_forall in H.
+  pose proof (H _ H1) as A. pose proof (H _ H2) as B. cbn [fst snd] in A, B.
+  destruct (aget (pdefaults P) c) as [w|]; [|discriminate].
+  apply str_eqb_eq in A, B. congruence.
+Qed.
+
+Lemma in_rev_aget (l : alist) c v : aget (rev l) c = Some v -> In (c, v) l.
+Proof. intros E. apply aget_In' in E. apply in_rev. exact E. Qed.
+
+Lemma In_akeys_local (d : alist) k v : In (k, v) d -> In k (akeys d).
+Proof. intros H. unfold akeys. change k with (fst (k, v)). apply in_map. exact H. Qed.
+
+Section NestDefaults.
+  Variables (p rest fs : npipe) (F : pfunc) (oo ps : list str).
+  Let nd := Node F oo (Some fs).
+  Let p' := rest ++ [nd].
+  Hypothesis Huniq : forall n1 n2 o, In n1 p -> In n2 p -> In o (outs (nf n1)) -> In o (outs (nf n2)) -> n1 = n2.
+  Hypothesis Hrest : incl rest p.
+  Hypothesis Hfs : incl fs p.
+  Hypothesis Hcover : forall n, In n p -> In n rest \/ In n fs.
+  Hypothesis HF_outs : outs F = oo.
+  Hypothesis HF_bound : bound F = [].
+  Hypothesis Hoo : forall o, In o oo -> In o (all_outputs (funcs fs)).
+  Hypothesis Hps1 : forall g c, In g fs -> In c (pnames (nf g)) -> ahas (bound (nf g)) c = false ->
+                                In c ps \/ In c (all_outputs (funcs fs)).
+  (* the defaults of the nested function: the inner pipeline's defaults of its parameters *)
+  Hypothesis HF_dflt : dflt F = flat_map (fun n => match aget (rev (pdefaults (funcs fs))) n with
+                                                   | Some v => [(n, v)] | None => [] end) ps.
+  Hypothesis Hcons : consistent_defaults (funcs p) = true.
+  Hypothesis Hdk : forall n k, In n p -> In k (akeys (dflt (nf n))) -> In k (pnames (nf n)).
+
+  Lemma not_output_p' c : is_output (funcs p) c = false -> is_output (funcs p') c = false.
+  Proof.
+    intros H. destruct (is_output (funcs p') c) eqn:E; [|reflexivity]. exfalso.
+    rewrite is_output_funcs in E. destruct (nproducer p' c) as [x|] eqn:Ex; [|discriminate].
+    apply nproducer_In in Ex as [E1 E2]. unfold p' in E1. apply in_app_or in E1 as [E1|[<-|[]]].
+    - rewrite is_output_funcs in H. destruct (nproducer_exists p c x (Hrest x E1) E2) as [y Ey]. rewrite Ey in H. discriminate.
+    - cbn [nf nd] in E2. rewrite HF_outs in E2. apply Hoo in E2. apply in_all_outputs in E2 as (g & Hg & Ho).
+      rewrite is_output_funcs in H. destruct (nproducer_exists p c g (Hfs g Hg) Ho) as [y Ey]. rewrite Ey in H. discriminate.
+  Qed.
+  Lemma not_output_fs c : is_output (funcs p) c = false -> is_output (funcs fs) c = false.
+  Proof.
+    intros H. destruct (is_output (funcs fs) c) eqn:E; [|reflexivity]. exfalso.
+    rewrite is_output_funcs in E. destruct (nproducer fs c) as [x|] eqn:Ex; [|discriminate].
+    apply nproducer_In in Ex as [E1 E2]. rewrite is_output_funcs in H.
+    destruct (nproducer_exists p c x (Hfs x E1) E2) as [y Ey]. rewrite Ey in H. discriminate.
+  Qed.
+
+  (* every default entry of p' for a root argument c is a default entry of p *)
+  Lemma pdefaults_p'_p c v : is_output (funcs p) c = false -> In (c, v) (pdefaults (funcs p')) -> In (c, v) (pdefaults (funcs p)).
+  Proof.
+    intros Ho H. apply in_pdefaults in H as (f & Hf & Hd & Hb & _).
+    unfold funcs, p' in Hf. rewrite map_app in Hf. apply in_app_or in Hf as [Hf|[<-|[]]].
+    - apply in_pdefaults. exists f. split; [|auto]. apply in_map_iff in Hf as (x & <- & Hx). apply in_map. apply Hrest. exact Hx.
+    - cbn [nf nd] in Hd. rewrite HF_dflt in Hd. apply in_flat_map in Hd as (n & Hn & Hd).
+      destruct (aget (rev (pdefaults (funcs fs))) n) as [w|] eqn:Ew; [|destruct Hd].
+      destruct Hd as [Hd|[]]. injection Hd as -> ->. apply in_rev_aget in Ew.
+      apply in_pdefaults in Ew as (g & Hg & Gd & Gb & _). apply in_pdefaults. exists g. split; [|auto].
+      apply in_map_iff in Hg as (x & <- & Hx). apply in_map. apply Hfs. exact Hx.
+  Qed.
+
+  (* and if p has a default entry for c then so does p' *)
+  Lemma pdefaults_p_p' c v : is_output (funcs p) c = false -> In (c, v) (pdefaults (funcs p)) ->
+    exists v', In (c, v') (pdefaults (funcs p')).
+  Proof.
+    intros Ho H. apply in_pdefaults in H as (f & Hf & Hd & Hb & _).
+    apply in_map_iff in Hf as (x & <- & Hx). destruct (Hcover x Hx) as [Hr|Hg].
+    - exists v. apply in_pdefaults. exists (nf x). split; [|split; [exact Hd|split; [exact Hb|apply not_output_p'; exact Ho]]].
+      unfold funcs, p'. rewrite map_app. apply in_or_app. left. apply in_map. exact Hr.
+    - (* x is in the group: c is one of the nested function's parameters, with the inner default *)
+      assert (Hc : In c (pnames (nf x))) by (apply (Hdk x c Hx); eapply In_akeys_local; eauto).
+      assert (Hps : In c ps).
+      { destruct (Hps1 x c Hg Hc Hb) as [A|A]; [exact A|]. exfalso.
+        apply in_all_outputs in A as (g & G1 & G2). rewrite is_output_funcs in Ho.
+        destruct (nproducer_exists p c g (Hfs g G1) G2) as [y Ey]. rewrite Ey in Ho. discriminate. }
+      assert (Hin : In (c, v) (pdefaults (funcs fs))).
+      { apply in_pdefaults. exists (nf x). split; [apply in_map; exact Hg|]. split; [exact Hd|]. split; [exact Hb|].
+        apply not_output_fs. exact Ho. }
+      destruct (In_aget' (rev (pdefaults (funcs fs))) c v) as [w Hw]; [apply in_rev; rewrite rev_involutive; exact Hin|].
+      exists w. apply in_pdefaults. exists F. split; [|split; [|split; [rewrite HF_bound; reflexivity|apply not_output_p'; exact Ho]]].
+      + unfold funcs, p'. rewrite map_app. apply in_or_app. right. left. reflexivity.
+      + rewrite HF_dflt. apply in_flat_map. exists c. split; [exact Hps|]. rewrite Hw. left. reflexivity.
+  Qed.
+
+  Lemma nest_defaults c : is_output (funcs p) c = false -> default_of (funcs p') c = default_of (funcs p) c.
+  Proof.
+    intros Ho. unfold default_of. destruct (aget (pdefaults (funcs p)) c) as [v|] eqn:E.
+    - apply aget_In' in E. apply aget_all_vals.
+      + intros v' H. apply (pdefaults_p'_p c v' Ho) in H. eapply consistent_all_vals; eauto.
+      + eapply pdefaults_p_p'; eauto.
+    - apply aget_no_entry. intros v' H. apply (pdefaults_p'_p c v' Ho) in H.
+      destruct (In_aget' _ _ _ H) as [w Hw]. congruence.
+  Qed.
+End NestDefaults.
+
 (* ------------------------------------------------------------------ Model/Rewrite.nest builds such a split *)
 Definition group (p : npipe) (names : list str) : npipe :=
   flat_map (fun o => match nproducer p o with Some nd => [nd] | None => [] end) names.
@@ -328,6 +460,7 @@ Qed.
 Lemma mk_nested_shape fs new_out nd : mk_nested fs new_out = Ok nd ->
   exists F ps, nd = Node F (nested_outs fs new_out) (Some fs)
     /\ outs F = nested_outs fs new_out /\ params F = map (fun n => (n, n)) ps /\ bound F = []
+    /\ dflt F = flat_map (fun n => match aget (rev (pdefaults (funcs fs))) n with Some v => [(n, v)] | None => [] end) ps
     /\ (forall o, In o (nested_outs fs new_out) -> In o (all_outputs (funcs fs)))
     /\ (forall g c, In g fs -> In c (pnames (nf g)) -> ahas (bound (nf g)) c = false ->
                     In c ps \/ In c (all_outputs (funcs fs)))
@@ -348,13 +481,14 @@ Proof.
                                     [] (existsb cached (funcs fs))) oo (Some fs))) = Ok nd ->
                 exists F ps, nd = Node F (nested_outs fs new_out) (Some fs)
                   /\ outs F = nested_outs fs new_out /\ params F = map (fun n => (n, n)) ps /\ bound F = []
+                  /\ dflt F = flat_map (fun n => match aget (rev (pdefaults (funcs fs))) n with Some v => [(n, v)] | None => [] end) ps
                   /\ (forall o, In o (nested_outs fs new_out) -> In o (all_outputs (funcs fs)))
                   /\ (forall g c, In g fs -> In c (pnames (nf g)) -> ahas (bound (nf g)) c = false ->
                                   In c ps \/ In c (all_outputs (funcs fs)))
                   /\ (forall c, In c ps -> ~ In c (all_outputs (funcs fs)))).
   { destruct (subset_str oo all_out) eqn:Es; cbn [negb]; [|discriminate]. intros E. injection E as <-.
     eexists _, _. split; [reflexivity|]. split; [reflexivity|]. split; [reflexivity|]. split; [reflexivity|].
-    split; [|split].
+    split; [reflexivity|]. split; [|split].
     - intros o Ho. apply Hall. apply subset_str_incl in Es. apply Es. exact Ho.
     - intros g c Hg Hc Hb.
       assert (Hu : In c (flat_map unbound_params (funcs fs))).
@@ -386,17 +520,18 @@ Section NestOp.
     (* every output of the group that a function outside consumes (unbound) stays an output *)
     (forall a c, In a p -> ~ In a fs -> In c (pnames (nf a)) -> ahas (bound (nf a)) c = false ->
                  In c (all_outputs (funcs fs)) -> In c (nested_outs fs new_out)) ->
-    (* root arguments keep their defaults *)
-    (forall c, is_output (funcs p) c = false -> default_of (funcs p') c = default_of (funcs p) c) ->
+    (* defaults are declared for parameters and are consistent (part of what construction checks) *)
+    (forall n k, In n p -> In k (akeys (dflt (nf n))) -> In k (pnames (nf n))) ->
+    consistent_defaults (funcs p) = true ->
     forall n o v, neval body pick n p' kw o = Ok v -> exists m, neval body pick m p kw o = Ok v.
   Proof.
-    intros E Huniq Hne fs Hkw Hhid Hdef. unfold nest in E.
+    intros E Huniq Hne fs Hkw Hhid Hdk Hcons. unfold nest in E.
     destruct (mapM _ names) as [fs0|] eqn:Em; cbn [bind] in E; [|discriminate].
     apply mapM_group in Em. fold fs in Em. subst fs0.
     destruct (negb (nodup_strb (map nid fs))); [discriminate|].
     destruct (mk_nested fs new_out) as [nd|] eqn:En; cbn [bind] in E; [|discriminate].
     apply add_node_ok in E. subst p'.
-    destruct (mk_nested_shape fs new_out nd En) as (F & ps & -> & HFo & HFp & HFb & Hoo & Hps1 & Hps2).
+    destruct (mk_nested_shape fs new_out nd En) as (F & ps & -> & HFo & HFp & HFb & HFd & Hoo & Hps1 & Hps2).
     set (rest := filter (fun x => negb (mem_str (nid x) (map nid fs))) p) in *.
     assert (Hfs : incl fs p) by apply group_incl.
     assert (Hnid : forall a b, In a p -> In b p -> nid a = nid b -> a = b).
@@ -419,7 +554,11 @@ Section NestOp.
     { intros a c Ha Hc Hb Hin. unfold rest in Ha. apply filter_In in Ha as [Ha1 Ha2].
       apply (Hhid a c Ha1); auto. intros Hfa. apply negb_true_iff in Ha2. apply mem_str_not_In in Ha2.
       apply Ha2. apply in_map. exact Hfa. }
+    assert (Hdef : forall c, is_output (funcs p) c = false ->
+                             default_of (funcs (rest ++ [Node F (nested_outs fs new_out) (Some fs)])) c = default_of (funcs p) c).
+    { intros c Hc. eapply (nest_defaults p rest fs F (nested_outs fs new_out) ps); eassumption. }
     exact (nest_sound body pick p rest fs F (nested_outs fs new_out) ps kw Huniq Hrest Hfs Hcover HFo HFp HFb
                       Hoo Hps1 Hps2 Hkw Hhidden Hdef).
   Qed.
 End NestOp.
+
